@@ -759,6 +759,10 @@ func (ex *Exec) applyContract(st *State, fn *types.Func, fs *FuncSpec, u *Unit, 
 			}
 		}
 	}
+	// locks the callee takes while it runs
+	for _, l := range fs.Acquires {
+		ex.lockOrderCheck(st, l, pos)
+	}
 	// locks the callee expects its caller to hold
 	for _, h := range fs.Holds {
 		_, held := st.held[h]
